@@ -51,6 +51,9 @@ class Ty:
         self.keyable = keyable            # usable as a map key (has operator< and std::hash)
         self.depth = depth
         self.kind, self.kids, self.params = "prim", [], {}      # structural view (used by gen/funggen.py)
+        # can an encoding of this type begin with NIL / ERR? (transparent layers pass the property through); an Optional
+        # around a nil-leading type, or a Result around an err-leading type, is not representable in the wire format (D13)
+        self.nil_lead, self.err_lead = False, False
 
     def shaped(self, kind, kids=(), **params):
         self.kind, self.kids, self.params = kind, list(kids), dict(params)
@@ -168,13 +171,17 @@ def tup(*ts):
 
 
 def opt(t):
-    amb = F_AMBIGUOUS if t.cpp.startswith("nop::Optional<") else 0
-    return _merge("nop::Optional<%s>" % t.cpp, "Optional<%s>" % t.name, [t], amb).shaped("opt", [t])
+    amb = F_AMBIGUOUS if t.nil_lead else 0
+    r = _merge("nop::Optional<%s>" % t.cpp, "Optional<%s>" % t.name, [t], amb).shaped("opt", [t])
+    r.nil_lead, r.err_lead = True, t.err_lead
+    return r
 
 
 def res(e, t):
-    amb = F_AMBIGUOUS if t.cpp.startswith("nop::Result<") else 0
-    return _merge("nop::Result<%s, %s>" % (e.cpp, t.cpp), "Result<%s,%s>" % (e.name, t.name), [e, t], amb).shaped("res", [e, t])
+    amb = F_AMBIGUOUS if t.err_lead else 0
+    r = _merge("nop::Result<%s, %s>" % (e.cpp, t.cpp), "Result<%s,%s>" % (e.name, t.name), [e, t], amb).shaped("res", [e, t])
+    r.nil_lead, r.err_lead = t.nil_lead, True
+    return r
 
 
 def var(*ts):
@@ -182,7 +189,9 @@ def var(*ts):
 
 
 def refw(t):
-    return _merge("std::reference_wrapper<%s>" % t.cpp, "reference_wrapper<%s>" % t.name, [t])
+    r = _merge("std::reference_wrapper<%s>" % t.cpp, "reference_wrapper<%s>" % t.name, [t])
+    r.nil_lead, r.err_lead = t.nil_lead, t.err_lead
+    return r
 
 
 def handle(kind="int"):
@@ -276,6 +285,7 @@ def wrapper(inner, name=None):
         reflect = ("template <> struct Reflect<%s> {\n  static Sch schema() { return SchemaOf<decltype(%s::v)>(); }\n"
                    "  static Val to(const %s& x) { return ToVal(x.v); }\n  static void from(const Val& v, %s* x) { FromVal(v, &x->v); }\n};") % (nm, nm, nm, nm)
         t = _merge(nm, "%s=wrap(%s)" % (nm, inner.name), [inner])
+        t.nil_lead, t.err_lead = inner.nil_lead, inner.err_lead
     t.integral = False
     t.decls.append(Decl(nm, text, reflect))
     return t.shaped("wrap_lb" if isinstance(inner, LBuf) else "wrap", [inner.elem] if isinstance(inner, LBuf) else [inner], inner=inner)
@@ -405,10 +415,10 @@ def random_type(rng, depth, allow_table=True, allow_handle=False, need_key=False
         return tup(*[sub() for _ in range(rng.choice([0, 1, 2, 3, 4]))])
     if k == "opt":
         t = sub()
-        return t if t.cpp.startswith("nop::Optional<") else opt(t)
+        return t if t.nil_lead else opt(t)
     if k == "res":
         t = sub()
-        return t if t.cpp.startswith("nop::Result<") else res(enum(rng.choice(["u8", "i32", "i16"])), t)
+        return t if t.err_lead else res(enum(rng.choice(["u8", "i32", "i16"])), t)
     if k == "var":
         return var(*[sub() for _ in range(rng.choice([1, 2, 3, 4]))])
     if k == "wrap":
